@@ -200,7 +200,7 @@ def blame(ev, prev):
         if c["clen"] in ("nonnum", "neg", "negone", "huge", "long"):
             return "%s:clen=%s" % (o["outcome"], c["clen"])
         if c["body"].endswith("U"):
-            return "%s:body=%s" % (o["outcome"], c["body"])
+            return "%s:body=wrongVersionU" % o["outcome"]
         return "%s:%s" % (o["outcome"],
                           ",".join("%s=%s" % (d, c[d]) for d in dev))
     return "status=%d" % o["status"]
